@@ -19,6 +19,8 @@ func runC09(c *Check, tier string) {
 	ruleR09a(c)
 	ruleKeyPurity(c, "R09b")
 	ruleR09c(c, "R09c")
+	// "if": states that differ in a dependency's output digest must get different keys
+	ruleR02c(c, "R09d")
 }
 
 var sortFuncs = map[string]bool{
